@@ -1,5 +1,8 @@
+mod backends;
+mod codec;
 mod decode;
 mod exec;
+mod guest;
 mod imgbuild;
 mod mutate;
 mod scen;
@@ -193,6 +196,9 @@ fn main() {
     let args: Vec<String> = std::env::args().collect();
     let code = match args.get(1).map(|s| s.as_str()) {
         Some("run") => run_scenarios(&args[2], &args[3]),
+        Some("codec") => codec::run(&args[2]),
+        Some("backends") => backends::run(&args[2], &args[3]),
+        Some("guest") => guest::run(&args[2], &args[3]),
         _ => {
             eprintln!("usage: qv run <scenarios.ndjson> <trace.ndjson>");
             2
